@@ -10,6 +10,7 @@ import (
 	"math"
 	"strconv"
 	"strings"
+	"time"
 	"unicode"
 	"unicode/utf8"
 
@@ -260,6 +261,55 @@ func init() {
 		},
 		"internal/stringslite.Clone": func(fr *frame, args []value) value { return args[0] },
 		"strings.Clone":              func(fr *frame, args []value) value { return args[0] },
+		"strings.Compare": func(fr *frame, args []value) value {
+			a, ok1 := args[0].(string)
+			b, ok2 := args[1].(string)
+			if !ok1 || !ok2 {
+				panic(fallthroughToSSA{})
+			}
+			return strings.Compare(a, b)
+		},
+		"strconv.ParseFloat": func(fr *frame, args []value) value {
+			s, ok := args[0].(string)
+			if !ok {
+				unsupported("strconv.ParseFloat on a symbolic string")
+			}
+			v, err := strconv.ParseFloat(s, int(asInt64(args[1])))
+			return tuple{v, nativeNumErr("ParseFloat", err)}
+		},
+		"strconv.ParseComplex": func(fr *frame, args []value) value {
+			s, ok := args[0].(string)
+			if !ok {
+				unsupported("strconv.ParseComplex on a symbolic string")
+			}
+			v, err := strconv.ParseComplex(s, int(asInt64(args[1])))
+			return tuple{v, nativeNumErr("ParseComplex", err)}
+		},
+		"strconv.ParseBool": func(fr *frame, args []value) value {
+			s, ok := args[0].(string)
+			if !ok {
+				panic(fallthroughToSSA{})
+			}
+			v, err := strconv.ParseBool(s)
+			return tuple{v, nativeNumErr("ParseBool", err)}
+		},
+		"time.ParseDuration": func(fr *frame, args []value) value {
+			s, ok := args[0].(string)
+			if !ok {
+				unsupported("time.ParseDuration on a symbolic string")
+			}
+			v, err := time.ParseDuration(s)
+			if err != nil {
+				return tuple{int64(0), newEngineErr(err.Error(), nil)}
+			}
+			return tuple{int64(v), iface{}}
+		},
+		"(time.Duration).String": func(fr *frame, args []value) value {
+			return time.Duration(concInt(args[0])).String()
+		},
+		// usage text is output formatting, never the subject
+		"(*flag.FlagSet).usage":         func(fr *frame, args []value) value { return nil },
+		"(*flag.FlagSet).PrintDefaults": func(fr *frame, args []value) value { return nil },
 		"go/ast.IsExported": func(fr *frame, args []value) value {
 			s, ok := args[0].(string)
 			if !ok {
